@@ -153,6 +153,9 @@ def run_xh(prop, jobs, tier, out=None, verbose=True, max_rounds=6):
             if r["verdict"] == "CONFIRMED":
                 out.discharged += 1
                 break
+            if r["verdict"] == "REFUTED" and len(out.violations) >= 25:
+                out.extra["refuted_jobs_not_replayed_after_25_violations"] = out.extra.get("refuted_jobs_not_replayed_after_25_violations", 0) + 1
+                break
             if r["verdict"] == "REFUTED":
                 if r.get("args") is None:
                     out.harness_errors.append("counterexample of %s without arguments: %s" % (job.label(), r.get("detail")))
